@@ -1,6 +1,7 @@
 package checks
 
 import (
+	"encoding/json"
 	"fmt"
 	"math"
 	"sort"
@@ -28,10 +29,11 @@ type TileCase struct {
 	OutSide string  `json:"outside"` // which side the outside probe lies on
 	OutFrac float64 `json:"outfrac"` // how many tiles beyond
 	Class   string  `json:"class"`
+	Prev    string  `json:"prev,omitempty"` // decode this set into the variable first, use it, then decode Set into the same variable
 }
 
 var specC15 = report.Spec{Property: "C15", Check: "C15",
-	Rule: "every built-in set x every tile matrix without variable widths x tiles (the four corner tiles, border tiles, random tiles over the full matrix) x an interior point at fractions in [0.01, 0.99]^2 x an outside point 1%-300% of a tile beyond one of the four sides; " +
+	Rule: "every built-in set x every tile matrix without variable widths x tiles (the four corner tiles, border tiles, random tiles over the full matrix) x an interior point at fractions in [0.01, 0.99]^2 x an outside point 1%-300% of a tile beyond one of the four sides, or with an infinite or NaN ordinate; 1 case in ~40 decodes another document into a variable, uses it, and decodes the set under test into the same variable; " +
 		"each case on the set itself or on its twin (corner of origin flipped, point of origin moved to the other corner: same extent). Oracle: an independent x,y extent from the document numbers (axis order from orderedAxes, origin, matrix size x tile size x cell size): " +
 		"ToNative(tile) = the top left corner of that tile by the harness' arithmetic (tolerance 2e-9 + 8 ulp), FromNative(interior point) = that tile, outside => no tile, ToNative accepts x = width / y = height and rejects beyond, " +
 		"MatrixBoundingBox = [corner of tile (0,0), corner of tile (w,h)] = the independent extent, twin and original give the same extent and the same tile after flipping the row. " +
@@ -98,7 +100,10 @@ func genC15(t *rapid.T) TileCase {
 	c.FX = rapid.Float64Range(0.01, 0.99).Draw(t, "fx")
 	c.FY = rapid.Float64Range(0.01, 0.99).Draw(t, "fy")
 	c.Twin = rapid.Bool().Draw(t, "twin")
-	c.OutSide = rapid.SampledFrom([]string{"left", "right", "below", "above"}).Draw(t, "outside")
+	c.OutSide = rapid.SampledFrom([]string{"left", "right", "below", "above", "left", "right", "below", "above", "+inf", "-inf", "nan-x", "nan-y"}).Draw(t, "outside")
+	if rapid.IntRange(0, 39).Draw(t, "reuse") == 17 {
+		c.Prev = rapid.SampledFrom(setsElig).Draw(t, "prev")
+	}
 	c.OutFrac = rapid.Float64Range(0.01, 3).Draw(t, "outfrac")
 	return c
 }
@@ -136,8 +141,29 @@ func oracleC15(c TileCase) (o report.Outcome) {
 	loadSets()
 	orig := setsTM[c.Set]
 	tms := orig
+	if c.Prev != "" {
+		// one variable, two documents: decode Prev, use it, decode Set over it (like a long running program would)
+		loadDocs()
+		var v tms20.TileMatrixSet
+		if err := json.Unmarshal(docsBytes[c.Prev], &v); err != nil {
+			panic(err)
+		}
+		func() {
+			defer func() { _ = recover() }()
+			for id := range v.TileMatrices {
+				_, _, _ = v.MatrixBoundingBox(id)
+				_, _ = v.ToNative(slippy.NewTile(uint(id), 0, 0))
+				break
+			}
+		}()
+		if err := json.Unmarshal(docsBytes[c.Set], &v); err != nil {
+			panic(err)
+		}
+		tms = v
+		o.Label("variable reused")
+	}
 	if c.Twin {
-		tms = twinOf(orig)
+		tms = twinOf(tms)
 	}
 	tm := tms.TileMatrices[c.TM]
 	swapped := kernel.DocAxesSwapped(tms.OrderedAxes)
@@ -200,6 +226,14 @@ func oracleC15(c TileCase) (o report.Outcome) {
 			op = geom.Point{maxX + c.OutFrac*tsx, pt[1]}
 		case "below":
 			op = geom.Point{pt[0], minY - c.OutFrac*tsy}
+		case "+inf":
+			op = geom.Point{math.Inf(1), pt[1]}
+		case "-inf":
+			op = geom.Point{pt[0], math.Inf(-1)}
+		case "nan-x":
+			op = geom.Point{math.NaN(), pt[1]}
+		case "nan-y":
+			op = geom.Point{pt[0], math.NaN()}
 		default:
 			op = geom.Point{pt[0], maxY + c.OutFrac*tsy}
 		}
